@@ -160,8 +160,12 @@ pub fn gen_case(prop: &str, seed: u64) -> Case {
             if krng.chance(2, 3) {
                 knobs.rowset_size = *krng.pick(&[1usize, 64, 128, 256, 1024, 4096]);
             }
+            let big = krng.chance(1, 12);
+            if big {
+                knobs.rowset_size = knobs.rowset_size.max(*krng.pick(&[65536usize, 1 << 20, 256 << 20]));
+            }
             let mut g = Gen::new(&mut wrng, p);
-            case.steps = g.history();
+            case.steps = if big { g.big_scenario(false) } else { g.history() };
             case.params.insert("avoid".into(), avoid.on as i64);
         }
         "C13" => {
@@ -184,8 +188,12 @@ pub fn gen_case(prop: &str, seed: u64) -> Case {
             if krng.chance(1, 2) {
                 knobs.rowset_size = *krng.pick(&[128usize, 256, 1024, 4096]);
             }
+            let big = krng.chance(1, 12);
+            if big {
+                knobs.rowset_size = knobs.rowset_size.max(*krng.pick(&[65536usize, 1 << 20, 256 << 20]));
+            }
             let mut g = Gen::new(&mut wrng, p);
-            case.steps = g.history();
+            case.steps = if big { g.big_scenario(true) } else { g.history() };
         }
         "C04" => {
             let mut p = Profile::base();
